@@ -12,6 +12,7 @@ import VrlModel.Driver.C24
 import VrlModel.Driver.C35
 import VrlModel.Driver.C36
 import VrlModel.Driver.C27
+import VrlModel.Driver.C26
 
 /-- Line protocol driver: one case per line `op <tab> arg…`, one reply line per case. -/
 def handlers : List (String → List String → Option String) := [
@@ -28,7 +29,8 @@ def handlers : List (String → List String → Option String) := [
   Driver.C24.handle,
   Driver.C35.handle,
   Driver.C36.handle,
-  Driver.C27.handle
+  Driver.C27.handle,
+  Driver.C26.handle
 ]
 
 def dispatch (op : String) (args : List String) : String :=
